@@ -161,6 +161,11 @@ async fn re_slice_int(_w: &mut ZA, xs: &[u8]) {
     rec("re_slice_int", format!("{xs:?}"));
 }
 
+#[when(regex = r"^maybe(?: (a))?(?: (b))?(?: (c))?$")]
+fn re_opt_slice(_w: &mut ZA, xs: &[String]) {
+    rec("re_opt_slice", format!("{xs:?}"));
+}
+
 #[then(regex = r"^opt (\d+)( and (\d+))?$")]
 fn re_optional(_w: &mut ZA, a: u32, b: String, c: String) {
     rec("re_optional", format!("{a:?},{b:?},{c:?}"));
@@ -444,6 +449,7 @@ fn defs() -> Vec<Def> {
         Def { world: 'A', kw: Given, id: "re_unanchored", how: Re(r"(\S+) owes (\S+) (\d+)"), expect: |g, _| g[2].parse::<i64>().map(|n| format!("{:?},{:?},{n:?}", g[0], g[1])).map_err(|_| "can not be parsed".into()) },
         Def { world: 'A', kw: When, id: "re_slice", how: Re(r"^slice (\w+) (\w+) (\w+)$"), expect: |g, _| Ok(format!("{g:?}")) },
         Def { world: 'A', kw: When, id: "re_slice_int", how: Re(r"^ints (\d+),(\d+)$"), expect: |g, _| g.iter().map(|s| s.parse::<u8>()).collect::<Result<Vec<_>, _>>().map(|v| format!("{v:?}")).map_err(|_| "Failed to parse element".into()) },
+        Def { world: 'A', kw: When, id: "re_opt_slice", how: Re(r"^maybe(?: (a))?(?: (b))?(?: (c))?$"), expect: |g, _| Ok(format!("{g:?}")) },
         Def { world: 'A', kw: Then, id: "re_optional", how: Re(r"^opt (\d+)( and (\d+))?$"), expect: |g, _| g[0].parse::<u32>().map(|a| format!("{a:?},{:?},{:?}", g[1], g[2])).map_err(|_| "can not be parsed".into()) },
         Def { world: 'A', kw: Then, id: "re_result", how: Re(r"^res (ok|err)$"), expect: |g, _| if g[0] == "err" { Err("planned failure".into()) } else { Ok(format!("{:?}", g[0])) } },
         Def { world: 'A', kw: Then, id: "re_async_result", how: Re(r"^async res (ok|err)$"), expect: |g, _| if g[0] == "err" { Err("zoo error: async planned".into()) } else { Ok(format!("{:?}", g[0])) } },
@@ -561,6 +567,8 @@ const CORPUS: &[&str] = &[
     "\"alice\" owes 5 coins", "'alice' owes 1 coin", "\"alice\" owes x coins", "alice owes 5 coins",
     "\"a\" pays \"b\" at noon", "'a' pays \"b\" at noon", "\"a\" pays 'b' at noon", "'a' pays 'b' at noon", "\"\" pays \"b\" at noon",
     "5 pcs of apples for 3", "few of pears for -2", "many of x for y", "5 of apples for 3",
+    "maybe a c", "maybe", "maybe a b c", "maybe b", "maybe c", "maybe a  c",
+    "\"\" likes 'y' and few", "'x' likes \"\" and few", "\"\" likes '' and few",
     "\"x\" likes 'y' and few", "'x' likes \"y\" and 7", "\"x\" likes y and none",
     "a1 then go", "b2 then stop", "c3 then no",
     // named groups sharing a name prefix
@@ -691,6 +699,149 @@ where
     }
 }
 
+/// Hands out prepared features.
+struct Feats(Vec<gherkin::Feature>);
+impl cucumber::Parser<()> for Feats {
+    type Cli = cucumber::cli::Empty;
+    type Output = futures::stream::Iter<std::vec::IntoIter<cucumber::parser::Result<gherkin::Feature>>>;
+    fn parse(self, (): (), _: cucumber::cli::Empty) -> Self::Output {
+        futures::stream::iter(self.0.into_iter().map(Ok).collect::<Vec<_>>())
+    }
+}
+
+/// What the runner reported for the only step of each scenario: (scenario name, outcome).
+#[derive(Clone, Default)]
+struct Outcomes(std::rc::Rc<RefCell<Vec<(String, String)>>>);
+impl<W: cucumber::World + fmt::Debug> cucumber::Writer<W> for Outcomes {
+    type Cli = cucumber::cli::Empty;
+    async fn handle_event(&mut self, ev: cucumber::parser::Result<cucumber::Event<cucumber::event::Cucumber<W>>>, _: &cucumber::cli::Empty) {
+        use cucumber::event::{Cucumber, Feature, Rule, Scenario, Step, StepError};
+        let Ok(ev) = ev else { return };
+        let (sc, ev) = match ev.value {
+            Cucumber::Feature(_, Feature::Scenario(sc, ev)) | Cucumber::Feature(_, Feature::Rule(_, Rule::Scenario(sc, ev))) => (sc, ev),
+            _ => return,
+        };
+        let what = match ev.event {
+            Scenario::Step(_, Step::Passed(..)) => "passed".to_owned(),
+            Scenario::Step(_, Step::Skipped) => "skipped".to_owned(),
+            Scenario::Step(_, Step::Failed(_, _, _, err)) => match err {
+                StepError::NotFound => "failed:not-found".to_owned(),
+                StepError::AmbiguousMatch(e) => format!("failed:ambiguous:{}", e.possible_matches.len()),
+                StepError::Panic(p) => format!(
+                    "failed:panic:{}",
+                    p.downcast_ref::<String>().cloned().or_else(|| p.downcast_ref::<&str>().map(|s| (*s).to_owned())).unwrap_or_else(|| "<non-string payload>".into())
+                ),
+            },
+            _ => return,
+        };
+        self.0.borrow_mut().push((sc.name.clone(), what));
+    }
+}
+impl cucumber::writer::Normalized for Outcomes {}
+
+/// The same table through the real runner: every corpus text is the only step of a scenario of its
+/// own, run by `W::cucumber()` - the steps the attributes registered, the stock runner - into a
+/// recording writer. A parse failure or a returned `Err` must *fail the step* (and only it).
+fn check_world_e2e<W>(world: char, table: &[Def], out: &mut Out)
+where
+    W: cucumber::World + fmt::Debug + WorldInventory + 'static,
+{
+    let zero = gherkin::LineCol { line: 1, col: 1 };
+    let span = gherkin::Span { start: 0, end: 0 };
+    let mut feats = Vec::new();
+    let mut names: Vec<(String, Kw, &str)> = Vec::new();
+    for kw in [Kw::Given, Kw::When, Kw::Then] {
+        let scenarios = CORPUS
+            .iter()
+            .enumerate()
+            .map(|(i, text)| {
+                let name = format!("{kw:?} #{i}");
+                names.push((name.clone(), kw, text));
+                gherkin::Scenario { keyword: "Scenario".into(), name, description: None, steps: vec![gstep(kw, text)], examples: Vec::new(), tags: Vec::new(), span, position: zero }
+            })
+            .collect();
+        feats.push(gherkin::Feature {
+            keyword: "Feature".into(),
+            name: format!("zoo {kw:?}"),
+            description: None,
+            background: None,
+            scenarios,
+            rules: Vec::new(),
+            tags: Vec::new(),
+            span,
+            position: zero,
+            path: None,
+        });
+    }
+    let seen = Outcomes::default();
+    QUIET.store(true, std::sync::atomic::Ordering::SeqCst);
+    LOG.with(|l| l.borrow_mut().clear());
+    let run = panic::catch_unwind(AssertUnwindSafe(|| {
+        block_on(
+            W::cucumber::<std::path::PathBuf>()
+                .with_parser(Feats(feats))
+                .with_writer(seen.clone())
+                .with_cli(cucumber::cli::Opts::<cucumber::cli::Empty, cucumber::runner::basic::Cli, cucumber::cli::Empty, cucumber::cli::Empty>::default())
+                .max_concurrent_scenarios(1)
+                .run(()),
+        )
+    }));
+    QUIET.store(false, std::sync::atomic::Ordering::SeqCst);
+    let mut bad = |sig: &str, detail: String, text: &str| {
+        out.viol.push(json!({"property": "C19", "signature": sig, "detail": detail, "case_index": 0, "witness": {"world": world.to_string(), "through": "W::cucumber().run()", "text": text}}));
+    };
+    if let Err(p) = run {
+        let done = seen.0.borrow().len();
+        let at = names.get(done).map_or("<end>", |n| n.2);
+        bad("run:panicked", format!("the whole run of world Z{world} panicked after {done} steps (next text {at:?}): {}", panic_text(p)), at);
+        return;
+    }
+    let seen = seen.0.borrow();
+    let got: std::collections::HashMap<&str, Vec<&str>> = seen.iter().fold(std::collections::HashMap::new(), |mut m, (n, o)| {
+        m.entry(n.as_str()).or_default().push(o.as_str());
+        m
+    });
+    for (name, kw, text) in &names {
+        out.evals += 1;
+        let exp: Vec<(&Def, Vec<String>)> = table.iter().filter(|d| d.world == world && d.kw == *kw).filter_map(|d| def_matches(d, text).map(|g| (d, g))).collect();
+        let outcomes = got.get(name.as_str()).cloned().unwrap_or_default();
+        if outcomes.len() != 1 {
+            bad("run:step-results", format!("{kw:?} '{text}': {} result events for its only step ({outcomes:?})", outcomes.len()), text);
+            continue;
+        }
+        let o = outcomes[0];
+        match exp.len() {
+            0 => {
+                if o != "skipped" {
+                    bad("run:outcome", format!("{kw:?} '{text}' matches no definition, the runner reported {o}"), text);
+                }
+            }
+            1 => {
+                let (d, groups) = &exp[0];
+                out.nontrivial.push(fnv(&format!("run|{world}|{kw:?}|{text}")));
+                match (d.expect)(groups, text) {
+                    Ok(_) => {
+                        if o != "passed" {
+                            bad("run:outcome", format!("{kw:?} '{text}' -> {} must pass, the runner reported {o}", d.id), text);
+                        }
+                    }
+                    Err(msg) => {
+                        if !(o.starts_with("failed:panic:") && o.contains(&msg)) {
+                            bad("run:outcome", format!("{kw:?} '{text}' -> {}: a parse failure / returned Err ({msg}) must fail the step with that message, the runner reported {o}", d.id), text);
+                        }
+                    }
+                }
+            }
+            n => {
+                if o != format!("failed:ambiguous:{n}") {
+                    bad("run:outcome", format!("{kw:?} '{text}' matches {n} definitions, the runner reported {o}"), text);
+                }
+            }
+        }
+    }
+    out.counters.insert(format!("c19.steps_run_through_the_runner_Z{world}"), json!(names.len()));
+}
+
 fn count<T: 'static>() -> usize
 where
     T: cucumber::codegen::inventory::Collect,
@@ -728,6 +879,8 @@ fn main() {
     }
     check_world('A', ZA::default, &table, &mut out);
     check_world('B', || ZB, &table, &mut out);
+    check_world_e2e::<ZA>('A', &table, &mut out);
+    check_world_e2e::<ZB>('B', &table, &mut out);
     out.samples.push(json!({"definitions": table.iter().map(|d| format!("Z{} {:?} {} :: {}", d.world, d.kw, d.id, match &d.how { How::Literal(l) => format!("\"{l}\""), How::Re(r) => format!("regex = {r}"), How::Expr(e, _) => format!("expr = {e}") })).collect::<Vec<_>>(), "corpus_size": CORPUS.len()}));
     let _ = ZA::default().n;
     let res = json!({
